@@ -34,6 +34,7 @@ from ..typing import (
 )
 from ..utils import (
     build_and_validate_headers,
+    has_illegal_header_bytes,
     suppress_body,
     UnexpectedMessageError,
     valid_server_name,
@@ -131,6 +132,8 @@ class Handshake:
         for name, value in additional_headers:
             if b"sec-websocket-protocol" == name or name.startswith(b":"):
                 raise Exception(f"Invalid additional header, {name.decode()}")
+            if has_illegal_header_bytes(name) or has_illegal_header_bytes(value):
+                raise Exception("Invalid additional header, it contains CR, LF or NUL")
 
             headers.append((name, value))
 
